@@ -118,21 +118,30 @@ theorem parseDNSSL_eq (d : RawDNSSL) (maxI : Dur) :
     simp only [Option.getD_some, show lifetimeInRange l = inNonneg l from rfl]
     cases inNonneg l <;> cases d.names.isEmpty <;> cases nodupNat d.names <;> simp
 
+/-- the source scales the duration itself (regenerated; the repair of F-20) -/
+theorem gen_pref64_scales_duration : Gen.Plugin.pref64ScalesDuration = true := by decide
+
 theorem pref64_lifetime_eq (maxI : Dur) (h : 0 ≤ maxI) :
     Model.pref64Lifetime maxI = Spec.C02.pref64Lifetime maxI := by
-  unfold Model.pref64Lifetime Spec.C02.pref64Lifetime ceil8 wholeSeconds goDiv goMod
-  rw [gen_maxPref64Lifetime]
-  dsimp only
-  have hs : (65528 * second).tdiv second = 65528 := by decide
-  rw [hs, Int.tdiv_eq_ediv_of_nonneg h]
-  have hs0 : 0 ≤ maxI / second := Int.ediv_nonneg h (by decide)
-  generalize maxI / second = s at hs0
-  have hm : (s * 3).tmod 8 = (s * 3) % 8 := Int.tmod_eq_emod_of_nonneg (by omega)
+  unfold Model.pref64Lifetime
+  rw [gen_pref64_scales_duration]
+  simp only [if_true]
+  have h8 : (8 * second : Int) = 8000000000 := by decide
+  have hcap : Gen.Plugin.maxPref64Lifetime = 65528000000000 := by rw [gen_maxPref64Lifetime]; decide
+  have hcap' : (65528 * second : Int) = 65528000000000 := by decide
+  unfold Model.pref64LifetimeDur Spec.C02.pref64Lifetime ceil8s goMod
+  simp only [h8, hcap, hcap']
+  clear h8 hcap hcap'
+  have hm : (3 * maxI).tmod 8000000000 = (3 * maxI) % 8000000000 :=
+    Int.tmod_eq_emod_of_nonneg (by omega)
   rw [hm]
-  unfold second
-  split
-  · split <;> omega
-  · omega
+  clear hm
+  generalize 3 * maxI = y at *
+  by_cases h1 : y < 65528000000000
+  · by_cases h2 : y % 8000000000 > 0
+    · rw [if_pos h1, if_pos h2]; omega
+    · rw [if_pos h1, if_neg h2]; omega
+  · rw [if_neg h1]; omega
 
 theorem parsePref64_eq (p : RawPref64) (maxI : Dur) (h : 0 ≤ maxI) :
     parsePref64 p maxI =
